@@ -45,6 +45,8 @@ def rel_name(it, cache, path):
     """full path (directory + '/' + filename) -> the relative filename term."""
     d = cache.fields['_directory'].t
     t = path.t
+    if t.decl().name() == 'os_path_normpath':
+        t = t.arg(0)        # another spelling of the same path: it denotes the same file
     ch = t.children()
     if t.decl().name() == 'str.++' and len(ch) >= 2 and ch[0].eq(d):
         rest = ch[1:]
